@@ -40,6 +40,13 @@ impl Head for RequestHead {
     fn clear(&mut self) {
         self.flags = Flags::empty();
         self.headers.clear();
+
+        // a recycled head must not carry over anything from the request it described before;
+        // not every constructor of `Request` overwrites all of these
+        self.method = Method::default();
+        self.uri = Uri::default();
+        self.version = Version::HTTP_11;
+        self.peer_addr = None;
     }
 
     fn with_pool<F, R>(f: F) -> R
